@@ -56,6 +56,16 @@ def driver(lines, jobs=None):
     return run_parallel([RXDRV], lines, jobs)
 
 
+def harness_each(lines, timeout_ms, jobs=8):
+    """one harness process per request, `jobs` at a time (for the long-deadline retries: a request that really hangs
+    costs its whole deadline, so they must not queue behind one another)"""
+    out = {}
+    with concurrent.futures.ThreadPoolExecutor(max_workers=max(1, jobs)) as ex:
+        for r in ex.map(lambda l: _run_lines([RXH, "serve", str(timeout_ms)], [l]), lines):
+            out.update(r)
+    return out
+
+
 class Case:
     """one request: (dialect, mode, pattern, flags, api, input, repl, limit)"""
     __slots__ = ("dialect", "mode", "pattern", "flags", "api", "input", "repl", "limit", "tag")
@@ -137,13 +147,13 @@ def retry_hangs(cases, impl):
     hangs = [i for i in range(len(cases)) if impl.get(str(i)) == "HANG"]
     if hangs:
         some = hangs[:16]
-        again = harness([cases[i].hline(i) for i in some], 12000, jobs=8)
+        again = harness_each([cases[i].hline(i) for i in some], 12000, jobs=8)
         for i in some:
             impl[str(i)] = again.get(str(i), "HANG")
         # exponential backtracking is slow, not non-terminating: a last, long deadline for the first few survivors
         still = [i for i in some if impl[str(i)] == "HANG"][:4]
         if still:
-            last = harness([cases[i].hline(i) for i in still], 90000, jobs=4)
+            last = harness_each([cases[i].hline(i) for i in still], 90000, jobs=4)
             for i in still:
                 impl[str(i)] = last.get(str(i), "HANG")
 
